@@ -10,12 +10,15 @@ UNIT = "cond"
 
 def setup_env(rng):
     """key pool, domain constants (from the implementation) and a generator"""
-    outs = C.run_lines(C.VH(UNIT), ["cond.keys 6", "cond.consts"], shards=1)
+    outs = C.run_lines(C.VH(UNIT), ["cond.keys 6", "cond.consts", "cond.offkeys 6"], shards=1)
     keys = [bytes.fromhex(k) for k in outs[0].split(",")]
     consts_hex = outs[1]
     cb = bytes.fromhex(consts_hex)
     consts = [cb[i * 32:(i + 1) * 32] for i in range(7)]
-    return condgen.Gen(rng, keys, consts), keys, consts_hex
+    g = condgen.Gen(rng, keys, consts)
+    # points on the curve but outside the prime-order subgroup: decompress fine, must be rejected as keys
+    g.offkeys = [bytes.fromhex(k) for k in outs[2].split(",")] if outs[2] not in ("-", "") and not outs[2].startswith(("ERR", "PANIC", "?")) else []
+    return g, keys, consts_hex
 
 
 def key_oracle(cases, pool):
@@ -52,6 +55,7 @@ def make_cases(rng, n, scenarios=None, tweak=None, matrix=False):
     if matrix:
         cases += condgen.matrix_cases(g)
         cases += condgen.matrix2_cases(g)
+        cases += condgen.matrix3_cases(g)
     for _ in range(n):
         c = g.scenario(rng.choice(scenarios) if scenarios else None)
         if tweak:
